@@ -775,7 +775,11 @@ class ConfigurableReference:
     return not self.__eq__(other)
 
   def __hash__(self):
-    return hash(repr(self))
+    # The repr depends on whether dynamic registration is currently enabled, so
+    # it must not feed the hash: a reference used as a dict key would change
+    # its hash when the registration mode changes.
+    return hash((self._configurable.selector, tuple(self._scopes),
+                 self._evaluate))
 
   def __repr__(self):
     # Check if this reference is a macro or constant, i.e. @.../macro() or
